@@ -439,11 +439,39 @@ def _obs_of(r):
     return ("fail", o.get("msg", ""))
 
 
-def build_group(h, base, hdr, exprs, stats):
-    """Observations for a list of expressions expected to build together: one file;
-    on a failure the group is bisected."""
+# Circuit breakers, per worker process and helper.  A change that makes a helper fail, panic or hang
+# on many inputs must not turn the run into hours of bisection and time-outs: after FAIL_LIMIT
+# unexpected failures the helper's calls are built one per file, after CRASH_LIMIT crashes/time-outs
+# its remaining calls are skipped (counted; the crashes found are the verdict).
+_CRASHES = {}
+_FAILS = {}
+CRASH_LIMIT = 2
+FAIL_LIMIT = 12
+T_LEAF = 10.0
+SKIPPED = ("skipped", "not run: this helper already crashed or hung %d times in this worker" % CRASH_LIMIT)
+
+
+def _note(name, k):
+    if k == "crash":
+        _CRASHES[name] = _CRASHES.get(name, 0) + 1
+    if k != "ok":
+        _FAILS[name] = _FAILS.get(name, 0) + 1
+
+
+def build_group(h, base, hdr, exprs, names, stats):
+    """Observations for expressions expected to build together: one file; on a failure the
+    group is bisected.  names: the helper of each expression (for the circuit breakers)."""
+    live = [i for i in range(len(exprs)) if _CRASHES.get(names[i], 0) < CRASH_LIMIT]
+    if len(live) < len(exprs):
+        out = [SKIPPED] * len(exprs)
+        if live:
+            for i, o in zip(live, build_group(h, base, hdr, [exprs[i] for i in live], [names[i] for i in live], stats)):
+                out[i] = o
+        return out
+    if not exprs:
+        return []
     p = _newfile(base, file_text(hdr, exprs))
-    r = h.req({"op": "build", "path": p, "fresh": False, "strict": True}, timeout=60 + 0.05 * len(exprs))
+    r = h.req({"op": "build", "path": p, "fresh": False, "strict": True}, timeout=T_LEAF + 0.05 * len(exprs))
     stats["builds"] += 1
     os.unlink(p)
     k, x = _obs_of(r)
@@ -455,10 +483,51 @@ def build_group(h, base, hdr, exprs, stats):
             out.append(("ok", x["r%d" % i]))
         return out
     if len(exprs) == 1:
+        _note(names[0], k)
         return [(k, x)]
     stats["bisections"] += 1
     mid = len(exprs) // 2
-    return build_group(h, base, hdr, exprs[:mid], stats) + build_group(h, base, hdr, exprs[mid:], stats)
+    return (build_group(h, base, hdr, exprs[:mid], names[:mid], stats)
+            + build_group(h, base, hdr, exprs[mid:], names[mid:], stats))
+
+
+def build_singles(h, base, hdr, exprs, names, stats, expected_fail):
+    """One file per expression, 40 requests per round trip."""
+    out = [None] * len(exprs)
+    for lo in range(0, len(exprs), 40):
+        part = [i for i in range(lo, min(lo + 40, len(exprs)))]
+        run = [i for i in part if _CRASHES.get(names[i], 0) < CRASH_LIMIT]
+        for i in part:
+            if i not in run:
+                out[i] = SKIPPED
+        if not run:
+            continue
+        paths = [_newfile(base, file_text(hdr, [exprs[i]])) for i in run]
+        reqs = [{"op": "build", "path": q, "fresh": False, "strict": True} for q in paths]
+        r = h.req({"op": "batch", "reqs": reqs}, timeout=T_LEAF + 0.05 * len(reqs))
+        resps = r.get("resps") if isinstance(r, dict) else None
+        if resps is not None and r.get("restart"):
+            h.close()
+        for j, i in enumerate(run):
+            x = resps[j] if resps is not None else {"skipped": True}
+            if x.get("skipped"):            # behind a crash in the batch, or the whole batch was lost
+                if _CRASHES.get(names[i], 0) >= CRASH_LIMIT:
+                    out[i] = SKIPPED
+                    continue
+                x = h.req(reqs[j], timeout=T_LEAF)
+            if "toolerr" in x:
+                raise C.ToolError("harness: " + str(x["toolerr"]))
+            stats["builds"] += 1
+            k, v = _obs_of(x)
+            out[i] = (k, v["r0"]) if k == "ok" else (k, v)
+            if k == "crash" or (k != "ok" and not expected_fail[i]):
+                _note(names[i], k)
+        for q in paths:
+            try:
+                os.unlink(q)
+            except OSError:
+                pass
+    return out
 
 
 def judge(obs, exp):
@@ -502,21 +571,20 @@ def work(h, items):
         # what the build is likely to do decides the grouping (not the verdict)
         likely_fail = [(r["devexp"]["mayfail"] if r["dev"] else r["exp"]["mayfail"]) for r in refs]
         obs = [None] * len(cases)
-        grp = [i for i in range(len(cases)) if not likely_fail[i]]
+        hs = [c["h"] for c in cases]
+        one = lambda i: likely_fail[i] or _FAILS.get(hs[i], 0) >= FAIL_LIMIT
+        grp = [i for i in range(len(cases)) if not one(i)]
         if grp:
-            for i, o in zip(grp, build_group(h, base, hdr, [refs[i]["expr"] for i in grp], stats)):
+            for i, o in zip(grp, build_group(h, base, hdr, [refs[i]["expr"] for i in grp], [hs[i] for i in grp], stats)):
                 obs[i] = o
-        singles = [i for i in range(len(cases)) if likely_fail[i]]
-        for lo in range(0, len(singles), 50):
-            part = singles[lo:lo + 50]
-            paths = [_newfile(base, file_text(hdr, [refs[i]["expr"]])) for i in part]
-            resps = h.batch([{"op": "build", "path": p, "fresh": False, "strict": True} for p in paths], timeout=120)
-            stats["builds"] += len(paths)
-            for i, p, r in zip(part, paths, resps):
-                k, x = _obs_of(r)
-                obs[i] = (k, x["r0"]) if k == "ok" else (k, x)
-                os.unlink(p)
+        singles = [i for i in range(len(cases)) if obs[i] is None]
+        for i, o in zip(singles, build_singles(h, base, hdr, [refs[i]["expr"] for i in singles],
+                                               [hs[i] for i in singles], stats, [likely_fail[i] for i in singles])):
+            obs[i] = o
         for i, (c, r) in enumerate(zip(cases, refs)):
+            if obs[i][0] == "skipped":
+                out.append({"skipped": c["h"]})
+                continue
             ok = judge(obs[i], r["exp"])
             res = {"n": 1, "nt": 1 if nontrivial(c) else 0, "h": c["h"], "expr": r["expr"],
                    "open": 1 if (r["exp"]["mayfail"] and r["exp"]["ok"]) or len(r["exp"]["ok"]) > 1 else 0,
@@ -540,7 +608,7 @@ def work(h, items):
             out.append(res)
         # a batch file that built as a whole can also go through the real binary (bindings that already
         # disagreed here are not compared there a second time)
-        whole = bool(grp) and stats["bisections"] == 0 and sd % 7 == 0
+        whole = bool(grp) and stats["bisections"] == 0 and sd % 7 == 0 and all(obs[i][0] == "ok" for i in grp)
         out.append({"stats": stats, "file": file_text(hdr, [refs[i]["expr"] for i in grp]) if whole else None,
                     "fileexp": [refs[i]["exp"] if judge(obs[i], refs[i]["exp"]) else None for i in grp] if whole else None})
         if h.n > 2500:       # the environment caches every file's ops by path: bound the harness's memory
@@ -657,13 +725,13 @@ def _load_exp(e):
     return {"ok": [fix(v) for v in e["ok"]], "mayfail": e["mayfail"]}
 
 
-def observe_program(hp, program, binding="r0"):
+def observe_program(hp, program, binding="r0", timeout=120):
     base = C.scratch_dir("c19r")
     try:
         f = os.path.join(base, "replay.ucg")
         with open(f, "w", encoding="utf-8") as fh:
             fh.write(program)
-        h = C.Harness(hp, timeout=120)
+        h = C.Harness(hp, timeout=timeout)
         r = h.req({"op": "build", "path": f, "fresh": True, "strict": True})
         h.close()
     finally:
@@ -714,18 +782,16 @@ def _tla_set(xs):
 
 class SourceCheck:
     """Growth step: std/*.ucg of the working tree, parsed by the harness, evaluated by Eval.tla
-    inside TLC against the reference definitions (StdlibSrc.tla).  Runs in a thread next to the
-    replay.  SrcDevs = the deviations of the findings that are still open."""
+    inside TLC against the reference definitions (StdlibSrc.tla).  Runs as a child process
+    (`python3 -m vp.c19 srccheck <dir>`; no thread in this process, which forks workers) next to
+    the replay.  SrcDevs = the deviations of the findings that are still open."""
 
     def __init__(self, hp, tier, open_devs):
-        import threading
-        self.res = None
-        self.err = None
-        self.n = 0
+        import sys
         self.gd = C.gen_dir("c19src")
+        self.size = "srcq" if tier == "quick" else "src"
         src = stdsrc.load(hp)
-        self.path = os.path.join(self.gd, "stdsrc.json")
-        with open(self.path, "w", encoding="utf-8") as f:
+        with open(os.path.join(self.gd, "stdsrc.json"), "w", encoding="utf-8") as f:
             json.dump(src, f)
         with open(os.path.join(self.gd, "MC_StdlibSrc.tla"), "w") as f:
             f.write("---- MODULE MC_StdlibSrc ----\nEXTENDS StdlibSrc\n====\n")
@@ -733,34 +799,40 @@ class SourceCheck:
             f.write("CONSTANTS\n  Families = %s\n  Size = \"%s\"\n  Sim = FALSE\n  Deviations = {}\n"
                     "  KnownDevs = %s\n  SrcDevs = %s\n  Strict = TRUE\n  EnvVars <- NoEnvVars\n"
                     "INIT Init\nNEXT Next\nCHECK_DEADLOCK FALSE\nINVARIANTS SrcAgrees PackagesEvaluate\n"
-                    % (_tla_set(ALL_FAMILIES), "srcq" if tier == "quick" else "src", _tla_set(ALL_DEVS),
-                       _tla_set(sorted(open_devs))))
-        self.th = threading.Thread(target=self._run, daemon=True)
-        self.th.start()
-
-    def _count(self, _o):
-        self.n += 1
-
-    def _run(self):
-        try:
-            self.res = C.run_tlc("MC_StdlibSrc", "MC_StdlibSrc", workers=WORKERS, on_replay=self._count, timeout=3000,
-                                 heap="6g", env_extra={"C19_SRC": self.path}, gendir=self.gd)
-        except BaseException as e:
-            self.err = e
+                    % (_tla_set(ALL_FAMILIES), self.size, _tla_set(ALL_DEVS), _tla_set(sorted(open_devs))))
+        self.p = subprocess.Popen([sys.executable, "-m", "vp.c19", "srccheck", self.gd], cwd=C.VERIF,
+                                  stdout=subprocess.DEVNULL, stderr=subprocess.PIPE, text=True)
 
     def finish(self):
-        self.th.join()
-        shutil.rmtree(self.gd, ignore_errors=True)
-        if self.err is not None:
-            raise self.err
-        r = self.res
-        if r.violation:
+        _, err = self.p.communicate()
+        out = os.path.join(self.gd, "result.json")
+        try:
+            if self.p.returncode != 0 or not os.path.exists(out):
+                raise C.ToolError("source check failed to run: %s" % (err or "")[-2000:])
+            r = json.load(open(out, encoding="utf-8"))
+        finally:
+            shutil.rmtree(self.gd, ignore_errors=True)
+        if r["violation"]:
             raise C.ToolError("StdlibSrc.tla: %s violated - a std file does not evaluate under Eval.tla\n%s"
-                              % (r.violation, r.errtext[:2000]))
-        C.require_tlc_ok(r, "StdlibSrc")
-        if self.n + len(r.disagree) == 0:
+                              % (r["violation"], r["errtext"][:2000]))
+        if not r["ok"]:
+            raise C.ToolError("TLC failed on StdlibSrc: %s\n%s" % (r["errtext"][:3000], r["cmd"]))
+        if r["n"] + len(r["disagree"]) == 0:
             raise C.ToolError("StdlibSrc evaluated no call (vacuous)")
         return r
+
+
+def srccheck_main(gd):
+    n = [0]
+
+    def on(_o):
+        n[0] += 1
+    r = C.run_tlc("MC_StdlibSrc", "MC_StdlibSrc", workers=WORKERS, on_replay=on, timeout=3000, heap="6g",
+                  env_extra={"C19_SRC": os.path.join(gd, "stdsrc.json")}, gendir=gd)
+    with open(os.path.join(gd, "result.json"), "w", encoding="utf-8") as f:
+        json.dump({"ok": r.ok, "violation": r.violation, "errtext": r.errtext, "cmd": r.cmd, "wall": r.wall,
+                   "distinct": r.distinct, "generated": r.generated, "n": n[0], "disagree": r.disagree}, f)
+    return 0
 
 
 def main(tier, replay=None):
@@ -831,17 +903,21 @@ def main(tier, replay=None):
         items.append((base, sd * 1000003 + b, flip, chunk))
     totals = {"n": 0, "nt": 0, "open": 0, "failpred": 0, "builds": 0, "bisections": 0}
     samples, keys, distinct_nt = [], {}, set()
+    skipped = {}
     bin_files = []
     bad = []
     try:
         t1 = time.time()
-        res = C.proc_map(hp, work, items, chunk=1, workers=max(2, min(10, C.NCPU - 4)), timeout=120.0)
+        res = C.proc_map(hp, work, items, chunk=1, workers=max(2, min(10, C.NCPU - 4)), timeout=T_LEAF)
         for x in res:
             if "stats" in x:
                 totals["builds"] += x["stats"]["builds"]
                 totals["bisections"] += x["stats"]["bisections"]
                 if x["file"]:
                     bin_files.append((x["file"], x["fileexp"]))
+                continue
+            if "skipped" in x:
+                skipped[x["skipped"]] = skipped.get(x["skipped"], 0) + 1
                 continue
             totals["n"] += 1
             totals["open"] += x["open"]
@@ -863,9 +939,13 @@ def main(tier, replay=None):
         for x in bad:
             k = x["bad"]
             keys[k] = keys.get(k, 0) + 1
-            if confirmed.get(k, 0) < 5:
-                obs = observe_program(hp, x["info"]["program"])
+            if confirmed.get(k, 0) < (2 if k.startswith("crash:") else 5):
+                obs = observe_program(hp, x["info"]["program"], timeout=30 if k.startswith("crash:") else 120)
                 if judge(obs, x["info"]["expect"]):
+                    if k.startswith("crash:"):      # a time-out under load that a patient re-run does not show
+                        C.log("[c19] time-out not reproduced, dropped: %s" % x["info"]["program"].splitlines()[-1][:200])
+                        keys[k] -= 1
+                        continue
                     raise C.ToolError("disagreement does not reproduce on a fresh environment: %s" % x["info"]["program"])
                 confirmed[k] = confirmed.get(k, 0) + 1
             info = dict(x["info"])
@@ -875,30 +955,30 @@ def main(tier, replay=None):
         #    the real code (DESIGN 3.7(4)): the code siding with the reference means Eval.tla and the
         #    implementation differ on std's own source - a tool error, not a verdict
         sr = srcchk.finish()
-        cmds.append(sr.cmd)
-        states += sr.distinct
-        trans += sr.generated
+        cmds.append(sr["cmd"])
+        states += sr["distinct"]
+        trans += sr["generated"]
+        src_n = sr["n"] + len(sr["disagree"])
         configs.append("StdlibSrc (%s): %d calls of the std sources evaluated by Eval.tla in TLC, %d disagreements, "
-                       "TLC %.0fs" % ("srcq" if tier == "quick" else "src", srcchk.n + len(sr.disagree),
-                                      len(sr.disagree), sr.wall))
-        C.log("[c19] StdlibSrc: %d source-level calls, %d disagreements, TLC %.0fs"
-              % (srcchk.n + len(sr.disagree), len(sr.disagree), sr.wall))
-        if sr.disagree:
-            ds = sr.disagree[:400]
+                       "TLC %.0fs" % (srcchk.size, src_n, len(sr["disagree"]), sr["wall"]))
+        C.log("[c19] StdlibSrc: %d source-level calls, %d disagreements, TLC %.0fs" % (src_n, len(sr["disagree"]), sr["wall"]))
+        if sr["disagree"]:
+            ds = sr["disagree"][:400]
             for d in ds:
                 if "fam" not in d:
                     raise C.ToolError("unparsable DISAGREE line: %r" % (d,))
-                # what is expected of the code: the reference under the open deviations
-                d["ok"], d["mayfail"], d["dev"], d["devok"], d["devfail"] = d["expok"], d["expfail"], "", [], False
-            h2 = C.Harness(hp, timeout=120)
+            h2 = C.Harness(hp, timeout=T_LEAF)
             out = work(h2, [(base, sd + 17, None, [json.dumps(d) for d in ds])])
             h2.close()
-            for d, x in zip(ds, out):
-                if "bad" not in x:
-                    raise C.ToolError("the std source evaluated by Eval.tla yields %s for `%s` where the reference "
-                                      "(and the real code) say %s: Eval.tla and the implementation differ"
+            for d, x in zip(ds, [y for y in out if "stats" not in y]):
+                if "skipped" in x:
+                    continue
+                if "bad" not in x or x["bad"].startswith("dev:"):
+                    raise C.ToolError("the std source evaluated by Eval.tla yields %s for `%s`, which neither the reference "
+                                      "nor an open deviation admits, but the real code yields %s: Eval.tla and the "
+                                      "implementation differ on std's own source"
                                       % (json.dumps(d["src"], ensure_ascii=False)[:300], x["expr"],
-                                         exp_text({"ok": [], "mayfail": d["expfail"]}) if not d["expok"] else "a value"))
+                                         "the reference result" if "bad" not in x else "the recorded deviation"))
                 k = "source:%s" % d["h"]
                 keys[k] = keys.get(k, 0) + 1
                 info = dict(x["info"])
@@ -916,9 +996,16 @@ def main(tier, replay=None):
                 rep.disagree({"via": "ucg build + out json", "program": textv, "problem": msg}, key=key)
     finally:
         shutil.rmtree(base, ignore_errors=True)
+        if srcchk.p.poll() is None:      # left early: do not leave the child's TLC behind
+            srcchk.p.kill()
+            shutil.rmtree(srcchk.gd, ignore_errors=True)
 
     if keys:
         C.log("[c19] disagreements by key: %s" % json.dumps(keys, sort_keys=True))
+    if skipped:
+        C.log("[c19] calls not run after repeated crashes / time-outs of their helper: %s" % json.dumps(skipped, sort_keys=True))
+        if not any(k.startswith("crash:") for k in keys):
+            raise C.ToolError("calls were skipped after time-outs but no crash was confirmed (machine overloaded?): %r" % skipped)
     code = rep.finish()
     srng = random.Random(sd)
     srng.shuffle(samples)
@@ -939,7 +1026,8 @@ def main(tier, replay=None):
         "calls_per_helper": dict(sorted(perh.items())),
         "calls_predicted_to_fail": totals["failpred"], "calls_left_open": totals["open"],
         "builds": totals["builds"], "batches_bisected": totals["bisections"],
-        "source_calls_evaluated_by_Eval_in_TLC": srcchk.n + len(sr.disagree), "source_disagreements": len(sr.disagree),
+        "calls_skipped_after_repeated_crashes": sum(skipped.values()),
+        "source_calls_evaluated_by_Eval_in_TLC": src_n, "source_disagreements": len(sr["disagree"]),
         "batch_files_through_ucg_binary": bin_runs, "values_checked_in_out_json": bin_vals,
         "samples": [by[k] for k in sorted(by)][:14] or samples[:3] or [{"note": "no agreeing call this run"}],
         "exhaustive": False,
@@ -971,3 +1059,10 @@ def main(tier, replay=None):
                      "field names are distinct within a tuple; has_fields is asked about strings only",
                      "values through `out json` are compared only where JSON can carry them (no floats, |int| < 2^53)"])
     return code
+
+
+if __name__ == "__main__":
+    import sys
+    if len(sys.argv) == 3 and sys.argv[1] == "srccheck":
+        sys.exit(srccheck_main(sys.argv[2]))
+    sys.exit(2)
